@@ -1,7 +1,16 @@
 import Fabio.Generated.C07
 import Fabio.Model.C07
-/-! Obligations over the facts regenerated from `/repo` on every run: what the C07 model silently relies on.
-The facts are role-named events on the normalised AST (see the header of tools/factgen/c07.go): renaming locals,
+/-! OBLIGATIONS over the facts regenerated from `/repo` on every run: what the C07 proof chain relies on and no
+correspondence stream could establish by running the code — the absence of effects (a stream watches its own
+upstream; it cannot see a connection opened elsewhere, a header outside its universe deleted, a body consumed under
+a configuration it does not sample), gates ahead of the handler, atomic operations, constants, and the wiring in
+`main.go` that no harness executes. Each statement names the breaking change it stands against.
+
+Statements that merely pin the shape of sequential code whose behaviour a stream compares with the model on every
+run (the rendered statements of the URL construction, the literal event list of the no-route branch, the literal
+list of director stores, the order of strip and prepend) are CHANGE DETECTORS and live in `C07Pins.lean`.
+
+The facts are role-named events on the normalised AST (header of tools/factgen/c07.go): renaming locals,
 parameters or unexported helpers, extracting or inlining helpers, if/else ↔ switch and named constants do not
 change them. -/
 namespace Fabio.Props.C07Facts
@@ -16,71 +25,89 @@ def before (a b : String) : Bool :=
   | some i, some j => i < j
   | _, _ => false
 
-/-- `ServeHTTP`: lookup → no-route return → access → auth → redirect → URL build (query merge, strip before
-prepend, raw path) → handler choice → serve; the Host override and `addHeaders` happen after the no-route return
-and before the handler is chosen. -/
-theorem serve_order :
+/-- Gates ahead of the handler: lookup → no-route return → access check → authorization → redirect answer, and
+only then a handler is chosen and served (the only place where an upstream is dialled). Against: serving first
+and judging the answer afterwards, or a gate moved behind the handler — the client-side answer of a stream would
+be the same 403/401 while the upstream had already been contacted through a connection the stream's recorder
+does not see (another target of the table, a mirror). The model's `Target` is "a target that passed the gates". -/
+theorem gates_before_the_handler :
     before "lookup" "noroute-return" ∧ before "noroute-return" "access" ∧ before "access" "auth" ∧
-    before "auth" "redirect" ∧ before "redirect" "url-build" ∧ before "url-build" "rawpath-init" ∧
-    before "url-build" "query-merge" ∧ before "rawpath-init" "strip" ∧ before "strip" "prepend" ∧
-    before "prepend" "rawpath-set" ∧ before "rawpath-set" "handler-choice" ∧ before "query-merge" "handler-choice" ∧
-    before "noroute-return" "host-override" ∧ before "host-override" "handler-choice" ∧
-    before "noroute-return" "addHeaders" ∧ before "addHeaders" "handler-choice" ∧
-    before "handler-choice" "serve" := by decide
+    before "auth" "redirect" ∧ before "redirect" "handler-choice" ∧ before "handler-choice" "serve" := by decide
 
-/-- the no-route branch, as events (role-named, helper calls followed): the status comes from the configuration,
-is replaced by `http.StatusNotFound` outside the model's bounds, is written; the page is fetched and written when
-non-empty; then `return` — and nothing else happens (no handler, no transport) -/
-theorem noroute_branch :
+/-- what the no-route branch may do at all -/
+def noRouteAllowed : List String :=
+  ["store status = recv.Config.NoRouteStatus", "store status = http.StatusNotFound", "call w.WriteHeader(status)",
+   "store html = noroute.GetHTML()", "call io.WriteString(w, html)", "return"]
+
+/-- "… without any upstream being contacted": the `target == nil` branch consists of nothing but reading the
+configured status, the 404 fallback, `WriteHeader`, fetching the page, writing it, and `return` — no handler, no
+transport, no dial, no other call (membership, not order: the order is compared by `c07.noroute`). The bounds and
+the fallback are the model's constants. Against: a fallback upstream / mirror call added to the branch (a stream
+sees only that *its* upstream was not hit), a bound edited to a value between two sampled statuses. -/
+theorem noroute_contacts_nothing :
     noRouteLo = Model.C07.noRouteLo ∧ noRouteHi = Model.C07.noRouteHi ∧ noRouteDefault = Model.C07.statusNotFound ∧
-    noRouteEvents = ["store status = recv.Config.NoRouteStatus",
-      "status < 100 || status > 999 ⊢ store status = http.StatusNotFound",
-      "call w.WriteHeader(status)", "store html = noroute.GetHTML()",
-      "nonempty(html) ⊢ call io.WriteString(w, html)", "return"] := by
-  decide
+    noRouteActions.all (noRouteAllowed.contains ·) = true ∧ noRouteActions.getLast? = some "return" ∧
+    noRouteActions.contains "call w.WriteHeader(status)" = true ∧
+    noRouteActions.contains "store html = noroute.GetHTML()" = true := by decide
 
-/-- the target URL is built only past the returns of the lookup check, the no-route branch, the access check, the
-authorization check and the redirect answer -/
-theorem url_built_past_the_gates :
-    gatePrefix = ["past:!(recv.Lookup == nil)", "past:!(target == nil)", "past:!(target.AccessDeniedHTTP(req))",
-      "past:!(!target.Authorized(req, w, recv.AuthSchemes))",
-      "past:!(target.RedirectCode != 0 && target.RedirectURL != nil)"] := by decide
+/-- what the director may do to the outgoing request -/
+def directorAllowed : List String :=
+  ["store out.URL.Scheme = turl.Scheme", "store out.URL.Host = turl.Host", "store out.URL.Path = turl.Path",
+   "store out.URL.RawPath = turl.RawPath", "store out.URL.RawQuery = turl.RawQuery",
+   "call out.Header.Set(\"User-Agent\", \"\")"]
 
-/-- every store to the target URL, to the escaped path carried alongside, to the request's Host and to the request's
-URL, with the conditions it happens under: exactly what `Model.C07.targetURL`, `hostOverride` and the websocket
-branch transcribe -/
-theorem url_construction :
-    urlEvents = [
-      "store turl = &url.URL{Scheme: target.URL.Scheme, Host: target.URL.Host, Path: req.URL.Path}",
-      "store raw = req.URL.EscapedPath()",
-      "empty(target.URL.RawQuery) || empty(req.URL.RawQuery) ⊢ store turl.RawQuery = target.URL.RawQuery + req.URL.RawQuery",
-      "!(empty(target.URL.RawQuery) || empty(req.URL.RawQuery)) ⊢ store turl.RawQuery = target.URL.RawQuery + \"&\" + req.URL.RawQuery",
-      "nonempty(target.StripPath) && strings.HasPrefix(req.URL.Path, target.StripPath) ⊢ store turl.Path = turl.Path[len(target.StripPath):]",
-      "nonempty(target.StripPath) && strings.HasPrefix(req.URL.Path, target.StripPath) ⊢ store raw = raw[helper(raw, len(target.StripPath)):]",
-      "nonempty(target.StripPath) && strings.HasPrefix(req.URL.Path, target.StripPath), !strings.HasPrefix(turl.Path, \"/\") ⊢ store turl.Path = \"/\" + turl.Path",
-      "nonempty(target.StripPath) && strings.HasPrefix(req.URL.Path, target.StripPath), !strings.HasPrefix(turl.Path, \"/\") ⊢ store raw = \"/\" + raw",
-      "nonempty(target.PrependPath) ⊢ store turl.Path = target.PrependPath + turl.Path",
-      "nonempty(target.PrependPath) ⊢ store raw = (&url.URL{Path: target.PrependPath}).EscapedPath() + raw",
-      "nonempty(target.PrependPath), !strings.HasPrefix(turl.Path, \"/\") ⊢ store turl.Path = \"/\" + turl.Path",
-      "nonempty(target.PrependPath), !strings.HasPrefix(turl.Path, \"/\") ⊢ store raw = \"/\" + raw",
-      "strings.HasPrefix(raw, \"/\") ⊢ store turl.RawPath = raw",
-      "target.Host == \"dst\" ⊢ store req.Host = turl.Host",
-      "!(target.Host == \"dst\"), nonempty(target.Host) ⊢ store req.Host = target.Host",
-      "strings.EqualFold(upgrade, \"websocket\") ⊢ store req.URL = turl"] := by
-  decide +kernel
-
-/-- the director stores exactly scheme, host, path, raw path and raw query of the target URL into the outgoing
-request's URL, unconditionally, and writes no other field of the request -/
-theorem director_stores :
-    directorStores = ["store out.URL.Scheme = turl.Scheme", "store out.URL.Host = turl.Host",
-      "store out.URL.Path = turl.Path", "store out.URL.RawPath = turl.RawPath",
-      "store out.URL.RawQuery = turl.RawQuery"] := by decide
+/-- Frame of the director (`Model.C07.director`, theorem `director_frame`): every store to and every method call on
+the outgoing request is one of the five URL fields copied from the target URL or the User-Agent suppression; the
+five are all there. Against: `out.Header.Del("X-…")` / `out.Close = true` / `out.Body = …` for a header, field or
+request class outside the generators' universe. -/
+theorem director_touches_only_the_url :
+    directorEffects.all (directorAllowed.contains ·) = true ∧
+    (directorAllowed.take 5).all (directorEffects.contains ·) = true := by decide
 
 /-- `responseWriter` (the wrapper `Model.C07.RW` transcribes): `WriteHeader` passes every call on to the wrapped
 writer — the call is a top-level statement with nothing in front of it that could skip it — and records the
-code; `Write` hands the bytes on and returns the wrapped writer's count; the handler is served with the wrapper -/
+code; `Write` hands the bytes on and returns the wrapped writer's count; the handler is served with the wrapper.
+Against: a skip for one particular code (`if code == 425 { return }`) that no sampled status hits. -/
 theorem response_writer_forwards :
     rwWriteHeaderForwards = true ∧ rwWriteHeaderRecords = true ∧ rwWriteForwards = true ∧
     serveUsesResponseWriter = true := by decide
+
+/-- methods of `*http.Request` that consume the body or parse it into `Form` (after which `httputil.ReverseProxy`
+rewrites the query) -/
+def consuming : List String :=
+  ["ParseForm", "ParseMultipartForm", "FormValue", "PostFormValue", "FormFile", "MultipartReader", "Write", "WriteProxy",
+   "Clone", "Body.Read", "Body.Close", "GetBody", "Header.Write", "Header.WriteSubset"]
+
+/-- Before the handler gets the request, `ServeHTTP`, its helpers in package proxy and the tracing code it calls
+(`trace.CreateSpan`, `spanName`, `trace.InjectHeaders`) only *read* the request, apart from header lines
+(`addHeaders`, the request-id: C08), `Host` (the `host=` option) and `URL` (websocket branch) — the three the models
+transcribe: no call that consumes or parses the body, no mention of `Body`/`Form`/`PostForm`/`MultipartForm`/
+`GetBody`/`Trailer`, no other field assigned. Against: a `r.ParseForm()` / `r.FormValue(…)` behind a configuration
+value or template the streams do not sample (the body then never reaches the upstream and the reverse proxy
+re-encodes the query), `r.Method = …`, `r.ContentLength = …`. -/
+theorem request_only_read_before_the_handler :
+    requestTouchCoversCreateSpan = true ∧ requestBodyMentions = [] ∧
+    requestCalls.all (fun c => !consuming.contains c) = true ∧
+    requestStores.all (["Header[]", "Host", "URL"].contains ·) = true := by decide
+
+/-- `main.newHTTPProxy` (no harness runs `main`): the proxy gets the `proxy.*` section of the configuration and
+the tracing section, its transport comes from `transport.NewTransport` (what the harness installs as well), and
+the `Lookup` closure returns what `route.GetTable().Lookup` gave for this very request without storing into the
+request or the target. -/
+theorem main_wiring :
+    mainProxyFields.contains "Config: cfg.Proxy" = true ∧ mainProxyFields.contains "TracerCfg: cfg.Tracing" = true ∧
+    mainProxyFields.contains "Transport: transport.NewTransport(nil)" = true ∧
+    mainLookupIsTableLookup = true ∧ mainLookupStores = [] := by decide
+
+/-- The no-route page (`Model.C07Chain.watch`, theorem `page_is_last_delivered`): `main` starts the watcher, every
+round takes the next delivery from the registry's channel and hands it to `noroute.SetHTML` (with or without the
+"unchanged" shortcut in front); the page lives in an `atomic.Value`, `SetHTML` is one unconditional `Store` of its
+argument and `GetHTML` one `Load` (requests read it while the watcher writes). -/
+theorem noroute_page_wiring :
+    mainStartsWatcher = true ∧ watcherEvents.contains "loop ⊢ store next = <-pages" = true ∧
+    (watcherEvents.contains "loop, past:!(next == noroute.GetHTML()) ⊢ call noroute.SetHTML(next)" ||
+     watcherEvents.contains "loop ⊢ call noroute.SetHTML(next)") = true ∧
+    norouteVarType = "atomic.Value" ∧ norouteSetEvents = ["call pagevar.Store(page)"] ∧
+    norouteGetEvents = ["return pagevar.Load().(string)"] := by decide
 
 end Fabio.Props.C07Facts
